@@ -16,7 +16,7 @@ pub const NUMBERS: &[&str] = &["2", "10", "9.5", "-3", "0", "7", "100", "3.25", 
 pub const DIRS: &[&str] = &["a", "b", "src", "docs", "my dir", "v1.2", "lib", "pkg"];
 pub const STEMS: &[&str] = &["main", "util", "x", "mod", "data", "conf", "app", "b"];
 pub const HASH_EXTS: &[&str] = &["py", "rb", "sh"];
-pub const WRAP_EXTS: &[&str] = &["rs", "js", "go"];
+pub const WRAP_EXTS: &[&str] = &["rs", "js", "go", "ts", "java", "cs", "c", "cpp", "swift", "php", "toml"];
 
 #[derive(Clone, Debug)]
 pub struct GenCfg {
@@ -111,7 +111,10 @@ impl<'a> Gen<'a> {
         let mut guard = 0;
         while out.len() < n && guard < 1000 {
             guard += 1;
-            let ext = if wrap_langs && self.rng.chance(1, 4) {
+            let forced = std::env::var("BWSIM_FORCE_EXT").ok();
+            let ext: &str = if let Some(f) = forced.as_deref().and_then(|f| WRAP_EXTS.iter().chain(HASH_EXTS.iter()).find(|e| **e == f)) {
+                f
+            } else if wrap_langs && self.rng.chance(1, 4) {
                 *self.rng.pick(WRAP_EXTS)
             } else {
                 *self.rng.pick(HASH_EXTS)
